@@ -1,4 +1,4 @@
 SPECIFICATION FairSpec
-CONSTANTS NT = 3 NI = 3 NK = 2 NC = 1 Bug = "none"
+CONSTANTS NT = 3 NI = 2 NK = 2 NC = 1 Bug = "none"
 PROPERTY Termination
 CHECK_DEADLOCK TRUE
